@@ -62,7 +62,8 @@ EngineOK(c) ==
   IF c.cat = "bkg" THEN c.iso \in BkgKnown
   ELSE /\ c.iso \in DbdKnown
        /\ IF c.mode \in GaModes
-          THEN c.level = 0 /\ GaData /\ c.range = "none"
+          THEN c.level = 0 /\ GaData /\ c.mode = 21 /\ c.range = "none"   \* mounted: the g0 tables; the g2 tables (mode 22) are
+                                                                          \* mounted DAMAGED (cut in the middle of the rows): refused late
           ELSE /\ c.level \in Mo100Levels
                /\ (Spin(c.level) = 0 => c.mode \in ModesFor0)
                /\ (Spin(c.level) = 2 => c.mode \in ModesFor2)
